@@ -105,7 +105,7 @@ def replay_timer_generic(inputs, obl):
                 problems.append(f".timerc on a timer already stopped by a false return gave {r1}")
     if eval_sys_fn_cancel_timer(42) != 0:
         problems.append(".timerc(42) != 0")
-    problems += tick_placement_problems() + truth_problems() + real_asyncio_early_dispatch_problems()
+    problems += raising_callback_problems() + tick_placement_problems() + truth_problems() + real_asyncio_early_dispatch_problems()
     if problems:
         return dict(confirmed=True, detail='; '.join(problems[:4]))
     return dict(confirmed=False, detail="generic timer scenarios behave as specified")
@@ -228,3 +228,39 @@ def real_asyncio_early_dispatch_problems():
             problems.append(f"asyncio loop with clock resolution {res}, each timer dispatched {early}s before its deadline (allowed: when < time()+resolution): "
                             f"ticks at {ticks} serve boundaries {served}, expected [1, 2, 3, 4]")
     return problems[:1]
+
+
+def raising_callback_problems():
+    """a callback that raises (or returns something without a truth value) ends the timer: nothing stays scheduled and a later
+    .timerc reports 0 - it returns 1 exactly when it stopped a live timer"""
+    import numpy as np
+    from klongpy.sys_fn_timer import _call_periodic, eval_sys_fn_cancel_timer
+    problems = []
+    for interval in (0, 1):
+        for what, last in (('raises ValueError', 'raise'), ('returns a two-element array (no truth value)', np.array([1, 2]))):
+            loop = FakeLoop(0.0)
+            calls = []
+
+            def cb():
+                calls.append(loop.now)
+                if len(calls) < 2:
+                    return 1
+                if isinstance(last, str):
+                    raise ValueError('boom')
+                return last
+            t = _call_periodic(loop, 'x', interval, cb)
+            raised = False
+            for _ in range(5):
+                try:
+                    if not loop.step():
+                        break
+                except Exception:
+                    raised = True
+            live = len(loop.live())
+            r = eval_sys_fn_cancel_timer(t)
+            if not raised:
+                problems.append(f"interval={interval}: a callback that {what} did not surface an error")
+            if live or len(calls) != 2 or r != 0:
+                problems.append(f"interval={interval}: the callback {what} at its 2nd tick: {len(calls)} calls, {live} handle(s) still scheduled, "
+                                f".timerc afterwards returned {r} (0 expected: the timer is not live)")
+    return problems[:2]
